@@ -125,11 +125,14 @@ func rawInput(in input) input {
 	if !in.Bytes {
 		return in
 	}
-	out := input{Names: in.Names, Dict: map[string]string{}}
+	out := input{Dict: map[string]string{}}
+	for _, n := range in.Names {
+		out.Names = append(out.Names, toBytes(n))
+	}
 	out.Layout = copyLayout(in.Layout)
 	mapStrings(reflect.ValueOf(&out.Layout).Elem(), toBytes)
 	for k, v := range in.Dict {
-		out.Dict[k] = toBytes(v)
+		out.Dict[toBytes(k)] = toBytes(v)
 	}
 	return out
 }
@@ -477,6 +480,32 @@ func main() {
 			}
 			w.Put(lib.Case{Klass: "bytes-not-utf8", Input: lib.MustJSON(in), Impl: runImpl(in), Oracle: oracle(in), CoqModel: coqModel(in),
 				Trivial: len(in.Dict) == 0})
+		}
+		// parameter names, exhaustively over single bytes: for every byte b the names "A"+b, b+"A" and b alone; a name is
+		// valid iff all its bytes are in [A-Za-z0-9_-] (bytes >= 0x80 never are); an invalid name is an error, a valid
+		// one is substituted
+		for b := 0; b < 256; b++ {
+			c := string(rune(b))
+			for k, name := range []string{"A" + c, c + "A", c} {
+				l := intoto.Layout{Type: "layout", Steps: []intoto.Step{{Type: "step", SupplyChainItem: intoto.SupplyChainItem{Name: "s"},
+					ExpectedCommand: []string{"x{" + name + "}y", "{B}"}}}}
+				in := input{Layout: l, Names: []string{"B", name}, Dict: map[string]string{"B": "b", name: "V"}, Bytes: true}
+				w.Put(lib.Case{Klass: fmt.Sprintf("badname-bytes-%d", k), Input: lib.MustJSON(in), Impl: runImpl(in), Oracle: oracle(in), CoqModel: coqModel(in)})
+			}
+		}
+		// bytes a careless implementation might use to join and split elements: inside a value whose marker occurs,
+		// inside elements, at the start / middle / end
+		for _, b := range []int{0x00, 0x01, 0x09, 0x0a, 0x1c, 0x1d, 0x1e, 0x1f, ' ', ',', ';', '|'} {
+			c := string(rune(b))
+			for k, shape := range [][]string{{"a" + c + "b", "{P}"}, {"{P}", c}, {c + "{P}" + c, "z"}, {"p", "q" + c}} {
+				l := intoto.Layout{Type: "layout", Steps: []intoto.Step{{Type: "step",
+					SupplyChainItem: intoto.SupplyChainItem{Name: "s", ExpectedMaterials: [][]string{append([]string{"ALLOW"}, shape...)}}, ExpectedCommand: shape}},
+					Inspect: []intoto.Inspection{{Type: "inspection", SupplyChainItem: intoto.SupplyChainItem{Name: "i", ExpectedProducts: [][]string{shape}}, Run: shape}}}
+				for j, val := range []string{"v" + c + "w", c, "v"} {
+					in := input{Layout: l, Names: []string{"P"}, Dict: map[string]string{"P": val}, Bytes: true}
+					w.Put(lib.Case{Klass: fmt.Sprintf("separator-bytes-%d-%d", k, j), Input: lib.MustJSON(in), Impl: runImpl(in), Oracle: oracle(in), CoqModel: coqModel(in)})
+				}
+			}
 		}
 		for i := 0; i < n; i++ {
 			in, klass := genCase(r.Fork())
